@@ -238,6 +238,7 @@ func checkC07(c *Ctx, r *Report) {
 	nilConfigArgRule(c, r)
 	ancestorRule(c, r)
 	zeroConfigRule(c, r)
+	unhashableKeyRule(c, r)
 }
 
 // noGrowByResliceRule (R07k): a node's list ([]value) never grows by re-slicing into its spare
